@@ -74,9 +74,11 @@ EXPECT = {
                                                                     allow=("open_with = fs.open",)),
     ("ParquetFile.__init__", "metadata_from_many#1", "root"): E("param", "root", "c14_many: with a root the paths in the merged metadata are relative to it"),
     ("ParquetFile.__init__", "metadata_from_many#2", "root"): E(
-        "param", "root", "c14_many / analyse_paths: with a falsy root the base path is the longest common directory of the files - for a DIRECTORY "
-        "scan the dataset root is the directory the user named, else a partition directory common to all files is swallowed into the base path "
-        "and its column disappears", require=("root = root or fn",)),
+        "value", lambda asm, oc: ("p", "root") if any(c.startswith("('opaque', \"'*' in fn\")") and b for c, b in oc) else ("or", ("p", "root"), ("p", "fn")),
+        "c14_many / analyse_paths: with a falsy root the base path is the longest common directory of the files - for a DIRECTORY scan (fn "
+        "without a glob) the dataset root is the directory the user named, else a partition directory common to all files is swallowed into "
+        "the base path and its column disappears", allow=("the VALUE `root if root else fn` (the user's root when given, else the directory), "
+                                                            "possibly through fs._strip_protocol / join_path",)),
     ("ParquetFile._read_partitions", "paths_to_cats", "partition_meta"): E("text", "self.partition_meta", "c08_paths: partition values are typed by the dataset's partition_columns metadata"),
     # ---- head / iter / count ---------------------------------------------------------------------------------------------------
     ("ParquetFile.count", "to_pandas", "columns"): E("local", "_columns_from_filters(", W_FIRSTPASS),
@@ -295,6 +297,254 @@ def check_rebindings(defs, name, call, allow, require):
     return True, texts, None
 
 
+# ---- value-level provenance: what a name holds at a call site, as a term over the function's parameters ------------------------------
+# terms: ("p", name) the parameter as received | ("or", a, b) | ("ife", cond, a, b) | ("norm", f, t) a normaliser applied to t |
+#        ("const", v) | ("filtered", text) a comprehension with an `if` over the value | ("extended", text) join_path(x, more) |
+#        ("unrelated", text) | ("other", text) undecidable
+# conds: ("truthy", t) | ("not", c) | ("isnone", t) | ("opaque", text)
+NORMALISERS = {"_strip_protocol", "join_path", "get_fs", "check_categories", "_get_index", "list", "tuple", "str", "copy", "bool", "os.fspath",
+               "fspath", "stringify_path"}
+
+
+class ValueEval:
+    """forward evaluation of a function body up to ONE call site, forking at `if`s; every path that reaches the site yields
+    (value term of the wanted argument, truthiness / None-ness assumptions on parameters, opaque branch conditions taken)"""
+    LIMIT = 256
+
+    def __init__(self, fn, call, arg_expr):
+        self.fn, self.call, self.arg = fn, call, arg_expr
+        self.params = {a.arg for a in fn.args.args} | {a.arg for a in fn.args.kwonlyargs}
+        self.hits, self.overflow = [], False
+
+    # -- expressions
+    def ev(self, e, env):
+        if isinstance(e, ast.Name):
+            if e.id in env:
+                return env[e.id]
+            return ("p", e.id) if e.id in self.params else ("other", e.id)
+        if isinstance(e, ast.Constant):
+            return ("const", e.value)
+        if isinstance(e, ast.BoolOp) and isinstance(e.op, ast.Or):
+            t = self.ev(e.values[-1], env)
+            for v in reversed(e.values[:-1]):
+                t = ("or", self.ev(v, env), t)
+            return t
+        if isinstance(e, ast.IfExp):
+            return ("ife", self.cond(e.test, env), self.ev(e.body, env), self.ev(e.orelse, env))
+        if isinstance(e, ast.Subscript) and isinstance(e.slice, ast.Slice) and e.slice.lower is None and e.slice.upper is None:
+            return ("norm", "[:]", self.ev(e.value, env))
+        if isinstance(e, ast.Call):
+            f = ast.unparse(e.func)
+            args = list(e.args) + [k.value for k in e.keywords]
+            if f in NORMALISERS or f.split(".")[-1] in NORMALISERS:
+                tracked = [self.ev(a, env) for a in args if isinstance(a, ast.Name)]
+                tracked = [t for t in tracked if t[0] != "other"]
+                if len(args) == 1 and tracked:
+                    return ("norm", f, tracked[0])          # f(x): the same value, normalised
+                if f.split(".")[-1] == "join_path" and len(args) > 1 and tracked:
+                    return ("extended", ast.unparse(e)[:70])  # join_path(x, more): a DIFFERENT path (components appended)
+        if isinstance(e, (ast.ListComp, ast.DictComp, ast.SetComp, ast.GeneratorExp)) and any(g.ifs for g in e.generators):
+            return ("filtered", ast.unparse(e)[:70])
+        names = {n.id for n in ast.walk(e) if isinstance(n, ast.Name)}
+        derived = any(n in env and env[n][0] != "other" or n in self.params for n in names)
+        return ("other" if derived else "unrelated", ast.unparse(e)[:70])
+
+    def cond(self, t, env):
+        if isinstance(t, ast.UnaryOp) and isinstance(t.op, ast.Not):
+            return ("not", self.cond(t.operand, env))
+        if isinstance(t, ast.Compare) and len(t.ops) == 1 and isinstance(t.comparators[0], ast.Constant) and t.comparators[0].value is None \
+                and isinstance(t.ops[0], (ast.Is, ast.IsNot, ast.Eq, ast.NotEq)):
+            c = ("isnone", self.ev(t.left, env))
+            return c if isinstance(t.ops[0], (ast.Is, ast.Eq)) else ("not", c)
+        if isinstance(t, ast.BoolOp):
+            return ("opaque", ast.unparse(t)[:60])
+        if isinstance(t, (ast.Name, ast.Attribute)) or isinstance(t, ast.Call) and ast.unparse(t.func) == "bool":
+            return ("truthy", self.ev(t if not isinstance(t, ast.Call) else t.args[0], env))
+        return ("opaque", ast.unparse(t)[:60])
+
+    # -- three-valued truth under assumptions; `need` = the parameter atom whose truthiness decides
+    def truth(self, t, asm):
+        k = t[0]
+        if k == "p":
+            if asm.get(("none", t[1])) is True:
+                return False
+            return asm.get(("truthy", t[1]), ("need", ("truthy", t[1])))
+        if k == "const":
+            return bool(t[1])
+        if k == "norm":
+            return self.truth(t[2], asm)            # normalisers keep truthiness (a non-empty path / list stays non-empty)
+        if k == "or":
+            a = self.truth(t[1], asm)
+            return True if a is True else self.truth(t[2], asm) if a is False else a
+        if k == "ife":
+            c = self.decide(t[1], asm)
+            return self.truth(t[2], asm) if c is True else self.truth(t[3], asm) if c is False else c
+        return None
+
+    def decide(self, c, asm):
+        if c[0] == "not":
+            r = self.decide(c[1], asm)
+            return (not r) if isinstance(r, bool) else r
+        if c[0] == "truthy":
+            return self.truth(c[1], asm)
+        if c[0] == "isnone":
+            t = self.simplify(c[1], asm)
+            if t[0] == "p":
+                if asm.get(("truthy", t[1])) is True:
+                    return False
+                return asm.get(("none", t[1]), ("need", ("none", t[1])))
+            return False if t[0] in ("const", "norm") and not (t[0] == "const" and t[1] is None) else True if t == ("const", None) else None
+        return None
+
+    def simplify(self, t, asm):
+        k = t[0]
+        if k == "norm":
+            return self.simplify(t[2], asm)
+        if k == "or":
+            a = self.truth(t[1], asm)
+            return self.simplify(t[1], asm) if a is True else self.simplify(t[2], asm) if a is False else ("or", self.simplify(t[1], asm), self.simplify(t[2], asm))
+        if k == "ife":
+            c = self.decide(t[1], asm)
+            return self.simplify(t[2], asm) if c is True else self.simplify(t[3], asm) if c is False else t
+        return t
+
+    # -- statements
+    def run(self):
+        self.block(self.fn.body, [({}, {}, ())])
+        return self.hits
+
+    def holds_site(self, node):
+        return any(n is self.call for n in ast.walk(node))
+
+    def block(self, stmts, states):
+        for st in stmts:
+            if not states:
+                return []
+            if len(states) > self.LIMIT:
+                self.overflow = True
+                return []
+            states = self.stmt(st, states)
+        return states
+
+    def fork(self, c, state):
+        """-> [(state', branch taken: True/False)]"""
+        env, asm, oc = state
+        r = self.decide(c, asm)
+        if isinstance(r, bool):
+            return [(state, r)]
+        if isinstance(r, tuple) and r[0] == "need":
+            out = []
+            for v in (True, False):
+                a2 = dict(asm)
+                a2[r[1]] = v
+                if r[1][0] == "none" and v:
+                    a2[("truthy", r[1][1])] = False
+                out += self.fork(c, (env, a2, oc))
+            return out
+        txt = str(c)
+        return [((env, asm, oc + ((txt, True),)), True), ((env, asm, oc + ((txt, False),)), False)]
+
+    def stmt(self, st, states):
+        if isinstance(st, (ast.FunctionDef, ast.AsyncFunctionDef, ast.ClassDef)):
+            return states
+        if isinstance(st, ast.If):
+            out = []
+            for s_ in states:
+                c = self.cond(st.test, s_[0]) if not self.holds_site(st.test) else ("opaque", "site")
+                for s2, taken in self.fork(c, s_):
+                    out += self.block(st.body if taken else st.orelse, [s2])
+            return out
+        if isinstance(st, (ast.With, ast.AsyncWith)):
+            if any(self.holds_site(i.context_expr) for i in st.items):
+                self.record(states)
+                return []
+            return self.block(st.body, states)
+        if isinstance(st, ast.Try):
+            out = self.block(st.body, states)
+            for h in st.handlers:
+                out += self.block(h.body, states)
+            out = self.block(st.orelse, out) if st.orelse else out
+            return self.block(st.finalbody, out) if st.finalbody else out
+        if isinstance(st, (ast.For, ast.AsyncFor, ast.While)):
+            if self.holds_site(st):
+                # a site inside a loop: names the loop assigns are undecidable there
+                assigned = {n.id for x in ast.walk(st) for n in ([x] if isinstance(x, ast.Name) and isinstance(x.ctx, ast.Store) else [])}
+                ns = [({**env, **{a: ("other", "assigned in a loop") for a in assigned}}, asm, oc) for env, asm, oc in states]
+                return self.block(st.body, ns)
+            assigned = {n.id for x in ast.walk(st) for n in ([x] if isinstance(x, ast.Name) and isinstance(x.ctx, ast.Store) else [])}
+            return [({**env, **{a: ("other", "assigned in a loop") for a in assigned}}, asm, oc) for env, asm, oc in states]
+        if isinstance(st, (ast.Return, ast.Raise)):
+            if self.holds_site(st):
+                self.record(states)
+            return []
+        if self.holds_site(st):
+            self.record(states)
+            return []
+        if isinstance(st, (ast.Assign, ast.AnnAssign, ast.AugAssign)) and getattr(st, "value", None) is not None:
+            out = []
+            for env, asm, oc in states:
+                env = dict(env)
+                targets = st.targets if isinstance(st, ast.Assign) else [st.target]
+                for t in targets:
+                    if isinstance(t, ast.Name):
+                        env[t.id] = ("norm", "+=", self.ev(t, env)) if isinstance(st, ast.AugAssign) else self.ev(st.value, env)
+                    elif isinstance(t, (ast.Tuple, ast.List)):
+                        f = ast.unparse(st.value.func) if isinstance(st.value, ast.Call) else ""
+                        argn = {a.id for a in st.value.args if isinstance(a, ast.Name)} if isinstance(st.value, ast.Call) else set()
+                        for el in t.elts:
+                            if isinstance(el, ast.Name):
+                                env[el.id] = ("norm", f, self.ev(el, env)) if (f.split(".")[-1] in NORMALISERS and el.id in argn) else ("other", ast.unparse(st.value)[:50])
+                out.append((env, asm, oc))
+            return out
+        return states
+
+    def record(self, states):
+        for env, asm, oc in states:
+            self.hits.append((self.ev(self.arg, env), asm, oc))
+
+
+def value_provenance(fn, call, arg_expr, expected, exempt_when_absent=True):
+    """-> (status, model, note).  `expected(asm, oc)` -> term the argument must EQUAL (after stripping normalisers) on the path; paths on
+    which the caller's option is absent (None / falsy where the function substitutes its own default) are exempt when asked"""
+    ve = ValueEval(fn, call, arg_expr)
+    hits = ve.run()
+    if ve.overflow or not hits:
+        return UNKNOWN, {"why": "path explosion" if ve.overflow else "no path reaches the call site in the evaluator"}, ""
+    unknown, bad, norms = [], [], set()
+    todo = list(hits)
+    n = 0
+    while todo and n < 4096:
+        n += 1
+        val, asm, oc = todo.pop()
+        want = expected(asm, oc)
+        got, exp = ve.simplify(val, asm), ve.simplify(want, asm)
+        pend = [t for t in (got, exp) if t[0] in ("or", "ife")]
+        if pend:
+            r = ve.truth(pend[0], asm) if pend[0][0] == "or" else ve.decide(pend[0][1], asm)
+            if isinstance(r, tuple) and r[0] == "need":
+                for v in (True, False):
+                    a2 = dict(asm)
+                    a2[r[1]] = v
+                    todo.append((val, a2, oc))
+                continue
+            unknown.append(str(got)[:80])
+            continue
+        if got == exp:
+            continue
+        if exempt_when_absent and exp[0] == "p" and (asm.get(("none", exp[1])) is True or asm.get(("truthy", exp[1])) is False):
+            continue            # the option is absent on this path: the function's own default stands in for it
+        if got[0] == "other":
+            unknown.append(got[1])
+        else:
+            bad.append({"on_the_path": {f"{k[0]}({k[1]})": v for k, v in asm.items()} | {c: b for c, b in oc}, "the_callee_receives": str(got)[:90],
+                        "expected": str(exp)[:90]})
+    if bad:
+        return REFUTED, {"value_differs": bad[:3]}, ""
+    if unknown:
+        return UNKNOWN, {"undecided_value": sorted(set(unknown))[:3]}, ""
+    return PROVED, None, " [by value on %d path(s)]" % len(hits)
+
+
 def bind(call, callee_fn, skip_self):
     params = [a.arg for a in callee_fn.args.args][1 if skip_self else 0:]
     if any(isinstance(a, ast.Starred) for a in call.args):
@@ -397,8 +647,8 @@ def analyse():
                     if spec["kind"] == "skip":
                         continue
                     ob = f"{site}.passes[{p}]"
-                    what = {"param": "the caller's parameter `%s`", "text": "`%s`", "local": "a local defined from `%s`", "localis": "`%s`",
-                            "const": "the constant %s"}[spec["kind"]] % (spec["value"],)
+                    what = {"param": "the caller's parameter `%s`", "value": "%s", "text": "`%s`", "local": "a local defined from `%s`", "localis": "`%s`",
+                            "const": "the constant %s"}[spec["kind"]] % (spec["value"] if spec["kind"] != "value" else spec["allow"][0],)
                     detail = f"{short}(... {p} ...) at L{c.lineno} receives {what} [{spec['why']}]"
                     if bound is None:
                         res.add(ob, UNKNOWN, None, 0.0, "ast", detail + " - *args at the call site")
@@ -424,7 +674,12 @@ def analyse():
                                 st, model = PROVED, None
                                 note = (" [normalised first: " + "; ".join(t[:60] for t in texts) + "]") if texts else ""
                             else:
-                                model = dict(m, passed=txt, line=c.lineno)
+                                # the syntactic forms do not explain a re-binding: decide BY VALUE (never a violation when undecidable)
+                                st, vm, note = value_provenance(fn, c, e, lambda asm, oc, val=val: ("p", val))
+                                model = None if st == PROVED else dict(vm or {}, **m, passed=txt, line=c.lineno)
+                    elif kind == "value":
+                        st, vm, note = value_provenance(fn, c, e, val, exempt_when_absent=False)
+                        model = None if st == PROVED else dict(vm or {}, passed=txt, line=c.lineno)
                     elif kind == "text":
                         if txt == val:
                             st, model = PROVED, None
@@ -481,15 +736,43 @@ def flag_obligations(res):
         for flag in FLAGS:
             if flag not in params:
                 continue
-            stores = sorted({f"L{st.lineno}: " + ast.unparse(st).split("\n")[0][:90] for st in ast.walk(fn) if isinstance(st, ast.stmt)
-                             and not isinstance(st, (ast.FunctionDef, ast.If, ast.For, ast.While, ast.With, ast.Try))
-                             for x in ast.walk(st) if isinstance(x, ast.Name) and x.id == flag and isinstance(x.ctx, (ast.Store, ast.Del))} |
-                            {f"L{st.lineno}: for/with target" for st in ast.walk(fn) if isinstance(st, (ast.For, ast.With))
-                             for t in ([st.target] if isinstance(st, ast.For) else [i.optional_vars for i in st.items if i.optional_vars])
-                             for x in ast.walk(t) if isinstance(x, ast.Name) and x.id == flag})
+            sts = [st for st in ast.walk(fn) if isinstance(st, (ast.Assign, ast.AugAssign, ast.AnnAssign, ast.Delete, ast.NamedExpr))
+                   and any(isinstance(x, ast.Name) and x.id == flag and isinstance(x.ctx, (ast.Store, ast.Del)) for x in ast.walk(st))]
+            loops = [st for st in ast.walk(fn) if isinstance(st, (ast.For, ast.With))
+                     for t in ([st.target] if isinstance(st, ast.For) else [i.optional_vars for i in st.items if i.optional_vars])
+                     if any(isinstance(x, ast.Name) and x.id == flag for x in ast.walk(t))]
+            stores, undecided, kept = [], [], []
+            ve = ValueEval(fn, None, None)
+            for st in sts:
+                txt = f"L{st.lineno}: " + ast.unparse(st).split("\n")[0][:90]
+                rhs = getattr(st, "value", None)
+                simple = isinstance(st, (ast.Assign, ast.AnnAssign)) and rhs is not None and \
+                    all(isinstance(t, ast.Name) for t in (st.targets if isinstance(st, ast.Assign) else [st.target]))
+                if not simple:
+                    stores.append(txt)
+                    continue
+                t = ve.ev(rhs, {})
+                core = t
+                while core[0] == "norm" and core[1].split(".")[-1] in ("bool",):
+                    core = core[2]
+                truth_only = core[0] == "ife" and core[1] == ("truthy", ("p", flag)) and core[2][0] == "const" and core[3][0] == "const" \
+                    and bool(core[2][1]) is True and bool(core[3][1]) is False
+                if core == ("p", flag) or truth_only or (core[0] == "or" and core[1] == ("p", flag) and core[2][0] == "const" and not core[2][1]):
+                    kept.append(txt)          # x = x | bool(x) | x or False | True if x else False: the same flag for every truth test
+                elif core[0] in ("const", "unrelated", "filtered", "extended", "p"):
+                    stores.append(txt)
+                else:
+                    undecided.append(txt)
+            stores += [f"L{st.lineno}: for/with target" for st in loops]
             n += 1
+            if undecided and not stores:
+                res.add(f"readoptions.{q}.{flag}_not_rebound", UNKNOWN, {"undecided_assignments": undecided}, 0.0, "ast",
+                        f"`{flag}` of {q} is re-bound by an expression of itself whose value could not be decided")
+                continue
             res.add(f"readoptions.{q}.{flag}_not_rebound", PROVED if not stores else REFUTED, None if not stores else {"assignments": stores}, 0.0, "ast",
-                    f"the parameter `{flag}` of {q} is never assigned inside the function: what the function tests and hands on is the caller's flag"
+                    f"the parameter `{flag}` of {q} is never assigned a different value inside the function (a re-binding that keeps its truth value - "
+                    f"x = x, bool(x), x or False, True if x else False - is none): what the function tests and hands on is the caller's flag"
+                    + (" [value-preserving: " + "; ".join(kept) + "]" if kept else "")
                     + (" [" + W_SELFMADE + "]" if flag == "selfmade" else ""))
     api, _, _ = parse_module("fastparquet/api.py")
     cls_stores = []
